@@ -66,6 +66,12 @@ func c09Workspaces() []c09WS {
 				"c.lua": "---@type Derived\nlocal v = {}\nprint(v.fa, v.fb)\n"},
 			open:    []string{"c.lua"},
 			queries: []c09Query{{"definition", "c.lua", 2, 8, ""}, {"definition", "c.lua", 2, 14, ""}, {"hover", "c.lua", 2, 8, ""}, {"completion", "c.lua", 2, 8, "."}}},
+		{name: "w7-directory-reachable-under-two-names(symlink)",
+			files: map[string]string{"lib/mod.lua": "local M = {}\nM.x = 1\ngsym = 1\nreturn M\n", "alias": drv.SymlinkPrefix + "lib", "zlink": drv.SymlinkPrefix + "lib",
+				"main.lua": "local mod = require(\"mod\")\nprint(mod.x, gsym)\n"},
+			open: []string{"main.lua"},
+			queries: []c09Query{{"definition", "main.lua", 0, 21, ""}, {"definition", "main.lua", 1, 10, ""}, {"definition", "main.lua", 1, 14, ""}, {"references", "main.lua", 1, 14, ""},
+				{"wssymbol", "", 0, 0, "gsym"}, {"hover", "main.lua", 0, 21, ""}}},
 	}
 }
 
@@ -157,6 +163,7 @@ type c09Config struct {
 	yield   bool
 	bound   int
 	maxExec int64
+	dirMode int // permutation of whole-directory reads (0 = as the operating system delivers them)
 }
 
 func c09Configs(tier string) []c09Config {
@@ -171,7 +178,7 @@ func c09Configs(tier string) []c09Config {
 				if tier == "thorough" || r == 0 {
 					b = 2
 				}
-				out = append(out, c09Config{w, cpu, r, false, b, 60000})
+				out = append(out, c09Config{w, cpu, r, false, b, 60000, 0})
 			}
 			// method-entry granularity, <=1 deviation, at two map offsets (thorough: <=2 at offset 0)
 			for _, r := range []uint64{0, 1} {
@@ -179,8 +186,12 @@ func c09Configs(tier string) []c09Config {
 				if tier == "thorough" && r == 0 {
 					b = 2
 				}
-				out = append(out, c09Config{w, cpu, r, true, b, 60000})
+				out = append(out, c09Config{w, cpu, r, true, b, 60000, 0})
 			}
+		}
+		// directory listing order: reversed and rotated whole-directory reads, default schedule plus <=1 deviation
+		for _, dm := range []int{1, 2, 3} {
+			out = append(out, c09Config{w, 1, 0, false, 1, 60000, dm})
 		}
 	}
 	return out
@@ -195,7 +206,7 @@ func c09Space(tier string) *core.Space {
 		Describe: func(i int64) interface{} {
 			c := cfgs[i]
 			return map[string]interface{}{"workspace": wss[c.ws].name, "files": wss[c.ws].files, "NumCPU": c.cpus, "map_iteration_offset": c.mapR,
-				"method_entry_points": c.yield, "deviation_bound": c.bound}
+				"method_entry_points": c.yield, "deviation_bound": c.bound, "directory_read_permutation": c.dirMode}
 		},
 		Run: func(i int64, r *core.Result) {
 			c := cfgs[i]
@@ -211,6 +222,8 @@ func c09Space(tier string) *core.Space {
 			ref := sched.RunOnce(sc, nil, 60*time.Second)
 			vrt.SetNumCPU(c.cpus)
 			vrt.SetMapOrder(true, c.mapR)
+			vrt.SetDirOrder(c.dirMode)
+			defer vrt.SetDirOrder(0)
 			if ref.Err != "" {
 				r.Fail("c09", i, "harness:"+ref.Err, ws.name, map[string]interface{}{"workspace": ws.name})
 				return
@@ -279,8 +292,11 @@ func c09Space(tier string) *core.Space {
 				}
 				sort.Strings(diff)
 				sig := "outcome-depends-on-schedule-or-map-order"
+				if c.dirMode != 0 {
+					sig = "outcome-depends-on-directory-listing-order"
+				}
 				coreS := fmt.Sprintf("%s | %s | differing: %s", sig, ws.name, strings.Join(uniq(diff), ","))
-				r.Fail("c09", i, sig, coreS, map[string]interface{}{"failure_core": coreS, "workspace": ws.name, "files": ws.files, "NumCPU": c.cpus, "map_iteration_offset": c.mapR,
+				r.Fail("c09", i, sig, coreS, map[string]interface{}{"failure_core": coreS, "workspace": ws.name, "files": ws.files, "NumCPU": c.cpus, "map_iteration_offset": c.mapR, "directory_read_permutation": c.dirMode,
 					"method_entry_points": c.yield, "schedule": firstDiff.Choices, "reference_outcome(1 cpu, offset 0, default schedule)": ref.Obs, "outcome": firstDiff.Obs})
 			}
 		},
@@ -301,11 +317,11 @@ func init() {
 	core.Register(&core.Check{
 		ID:        "C09",
 		Technique: "stateless schedule exploration of the real server under a controlled runtime (iterative context bounding over goroutine start, channel, reflect.Select, mutex, WaitGroup and shared-object method-entry points) crossed with the pool width and every start offset of Go's map iteration; all executions of a workspace must give identical observables",
-		Rule: "closed systems: 6 small workspaces (duplicate global function, same-base-name modules, files that look at each other during the first pass through a type-2 import frame and an enum block, a global used in three files, symbols sharing a prefix, class annotations across files); each is started (directory scan, first/second/third pass pools), files are opened and definition/hover/references/completion/symbol queries are asked; " +
+		Rule: "closed systems: 7 small workspaces (a directory reachable under three names through symbolic links, duplicate global function, same-base-name modules, files that look at each other during the first pass through a type-2 import frame and an enum block, a global used in three files, symbols sharing a prefix, class annotations across files); each is started (directory scan, first/second/third pass pools), files are opened and definition/hover/references/completion/symbol queries are asked; " +
 			"explored: every schedule with <=1 deviation from the default schedule at synchronisation points for NumCPU in {1,2} x all 8 map-iteration start offsets (<=2 deviations at offset 0; thorough: at every offset), plus method-entry granularity with <=1 deviation at offsets {0,1} (thorough: <=2 at offset 0); oracle: the normalised observables equal those of the canonical execution (1 CPU, offset 0, default schedule). " +
 			"states = completed executions; transitions = scheduling decisions; non-trivial = configurations with more than one outcome",
 		Assumptions: []string{
-			"the controlled runtime owns goroutine creation, channel operations, reflect.Select, sync.Mutex/WaitGroup, runtime.NumCPU, time.Now and the start offset of every map iteration (runtime overlay); directory listings are sorted by ioutil.ReadDir",
+			"the controlled runtime owns goroutine creation, channel operations, reflect.Select, sync.Mutex/WaitGroup, runtime.NumCPU, time.Now, the start offset of every map iteration (runtime overlay) and the order in which whole-directory reads deliver their entries (os overlay: natural, reversed, rotated by 1 and 2; functions that sort afterwards are unaffected by construction)",
 			"map iteration order is explored through the runtime's real degree of freedom (start bucket/offset), one global value per execution",
 			"executions per configuration are capped (see counters); a capped configuration is reported as such, not as exhaustive",
 		},
